@@ -72,6 +72,9 @@ def programs(tier, seed):
             init, bound = ('a', 'N') if pos else ('N', 'a')
             st = (STEPS_POS if pos else STEPS_NEG)[j % 5]
             progs.append(make('t%04d' % n, 'int', init, cmp_, side, bound, st, tile, FORMS[(j + 1) % 3], False, tier)); n += 1
+    pw = make('twide', 'long', 'a', '<', 'L', 'N', 'i++', '2', 'oi', True, tier)
+    pw.reconfirms = ('wide-iterator-negative',)
+    progs.append(pw)
     # two-dimensional tiling (nested @tile(@outer,@inner): the @outer loop floats up)
     okl = ('@kernel void t2d(%s) {\n  for (int j = 0; j < N; ++j; @tile(2, @outer, @inner)) {\n    for (int i = a; i < b; i += 2; @tile(t, @outer, @inner)) {\n      rec(out, i, j);\n    }\n  }\n}\n' % SIG)
     p = O.Prog('t2d', okl, 't2d', args(tier), refcap=9, cap=4, unwind=6, desc='nested @tile(2,@outer,@inner) x @tile(t,@outer,@inner); 0<=N<=3, 0<=b-a<=6, 1<=t<=3',
